@@ -503,6 +503,8 @@ theorem decode_fin (mb eb bits : Nat) (hmb : 1 ≤ mb) (heb : 2 ≤ eb)
     (hfin : (bits / 2 ^ mb) % 2 ^ eb ≠ 2 ^ eb - 1) (hnz : (bits / 2 ^ mb) % 2 ^ eb ≠ 0 ∨ bits % 2 ^ mb ≠ 0)
     (hb : bits < 2 ^ (mb + eb + 1)) :
     ∃ (num den e1 M : Nat), FmtSpec.decode mb eb bits = .fin (decide ((bits / 2 ^ (mb + eb)) % 2 = 1)) num den ∧
+      e1 = (if (bits / 2 ^ mb) % 2 ^ eb = 0 then 1 else (bits / 2 ^ mb) % 2 ^ eb) ∧
+      M = (if (bits / 2 ^ mb) % 2 ^ eb = 0 then bits % 2 ^ mb else 2 ^ mb + bits % 2 ^ mb) ∧
       0 < num ∧ 0 < den ∧ 1 ≤ e1 ∧ e1 + 2 ≤ 2 ^ eb ∧ 0 < M ∧ M < 2 ^ (mb + 1) ∧ (1 < e1 → 2 ^ mb ≤ M) ∧
       (num : ℚ) / den = (M : ℚ) * 2 ^ ((e1 : Int) - ((2 : Int) ^ (eb - 1) - 1) - mb) ∧
       bits = (if decide ((bits / 2 ^ (mb + eb)) % 2 = 1) then 2 ^ (mb + eb) else 0) + ((e1 - 1) * 2 ^ mb + M) ∧
@@ -546,7 +548,7 @@ theorem decode_fin (mb eb bits : Nat) (hmb : 1 ≤ mb) (heb : 2 ≤ eb)
     simp only [if_true]
     have h1 : ¬ (bias + mb ≤ 1) := by omega
     rw [if_neg h1]
-    refine ⟨f, 2 ^ (bias + mb - 1), 1, f, rfl, by omega, Nat.two_pow_pos _, by omega, by omega, by omega,
+    refine ⟨f, 2 ^ (bias + mb - 1), 1, f, rfl, by simp, by simp, by omega, Nat.two_pow_pos _, by omega, by omega, by omega,
       by rw [Nat.pow_succ]; omega, by omega, ?_, ?_, ?_⟩
     · rw [hbiasc]
       push_cast
@@ -560,7 +562,7 @@ theorem decode_fin (mb eb bits : Nat) (hmb : 1 ≤ mb) (heb : 2 ≤ eb)
   · simp only [he0, if_false]
     by_cases hbig : bias + mb ≤ e
     · rw [if_pos hbig]
-      refine ⟨(2 ^ mb + f) * 2 ^ (e - (bias + mb)), 1, e, 2 ^ mb + f, rfl,
+      refine ⟨(2 ^ mb + f) * 2 ^ (e - (bias + mb)), 1, e, 2 ^ mb + f, rfl, by simp [he0], by simp [he0],
         Nat.mul_pos (by omega) (Nat.two_pow_pos _), by decide, by omega, by omega, by omega,
         by rw [Nat.pow_succ]; omega, fun _ => Nat.le_add_right _ _, ?_, ?_, ?_⟩
       · rw [hbiasc]
@@ -576,7 +578,7 @@ theorem decode_fin (mb eb bits : Nat) (hmb : 1 ≤ mb) (heb : 2 ≤ eb)
         omega
       · exact Nat.mul_pos (Nat.mul_pos (by omega) (Nat.two_pow_pos _)) (Nat.two_pow_pos _)
     · rw [if_neg hbig]
-      refine ⟨2 ^ mb + f, 2 ^ (bias + mb - e), e, 2 ^ mb + f, rfl, by omega, Nat.two_pow_pos _, by omega, by omega,
+      refine ⟨2 ^ mb + f, 2 ^ (bias + mb - e), e, 2 ^ mb + f, rfl, by simp [he0], by simp [he0], by omega, Nat.two_pow_pos _, by omega, by omega,
         by omega, by rw [Nat.pow_succ]; omega, fun _ => Nat.le_add_right _ _, ?_, ?_, ?_⟩
       · rw [hbiasc]
         push_cast
@@ -935,7 +937,7 @@ theorem readBits_format (mb eb p bits : Nat) (hmb : 1 ≤ mb) (heb : 2 ≤ eb)
     (hb : bits < 2 ^ (mb + eb + 1))
     (hfin : (bits / 2 ^ mb) % 2 ^ eb ≠ 2 ^ eb - 1) (hnz : (bits / 2 ^ mb) % 2 ^ eb ≠ 0 ∨ bits % 2 ^ mb ≠ 0) :
     FmtSpec.readBits mb eb (FmtSpec.formatVal (FmtSpec.decode mb eb bits) p .default) = some bits := by
-  obtain ⟨num, den, e1, M, hdec, hnum, hden, he1, he1', hM0, hM, hnorm, hv, hbits, hdb⟩ :=
+  obtain ⟨num, den, e1, M, hdec, _, _, hnum, hden, he1, he1', hM0, hM, hnorm, hv, hbits, hdb⟩ :=
     decode_fin mb eb bits hmb heb hfin hnz hb
   have hsmall : den ≤ num * 10 ^ 1199 := le_trans hdb (Nat.mul_le_mul_left _ hrange)
   generalize hneg : decide ((bits / 2 ^ (mb + eb)) % 2 = 1) = neg at *
